@@ -259,6 +259,9 @@ func genChk(ctx context.Context, t *rapid.T, kind string) *ChkCase {
 	cfg.CustomOptions = true
 	cfg.MaxFiles = 5
 	ws := protogen.GenWorkspace(t, cfg)
+	// no MessageSet messages here (addLegacyNested): on this tree `buf lint` / `buf breaking` fail with a
+	// system error on any message_set_wire_format message, for a source input and an image input alike,
+	// so there is nothing to compare (observation reported separately; not a C11 matter)
 	ed := protogen.NewEditor(t)
 	if c.What == "lint" {
 		for i := 0; i < rapid.IntRange(0, 3).Draw(t, "plants"); i++ {
